@@ -52,6 +52,13 @@ Proof.
   rewrite F in T by exact H. discriminate.
 Qed.
 
+Lemma expiry_field_lt t : expiry_field_of t < 4294967296.
+Proof.
+  unfold expiry_field_of. destruct (t =? 0)%Z; [reflexivity|].
+  destruct (t - timeOffset <? 1)%Z eqn:A; [reflexivity|]. destruct (4294967295 <? t - timeOffset)%Z eqn:B; [reflexivity|].
+  apply Z.ltb_ge in A. apply Z.ltb_ge in B. lia.
+Qed.
+
 Section keygen.
   Variable h : bytes -> N.
   Hypothesis h_range : forall s, h s < 4294967296.   (* a 32-bit hash *)
@@ -114,8 +121,7 @@ Section keygen.
     destruct (negb (contract_validate c mk)) eqn:V; [discriminate|]. apply negb_false_iff in V.
     pose proof (Hlen _ _ D) as L.
     destruct (list24 mk L) as (b0&b1&b2&b3&b4&b5&b6&b7&b8&b9&b10&b11&b12&b13&b14&b15&b16&b17&b18&b19&b20&b21&b22&b23&->).
-    pose proof (u32z_lt (if (0 <? expires)%Z then (expires - timeOffset)%Z else expires)) as Bx.
-    fold (expiry_field_of expires) in Bx.
+    pose proof (expiry_field_lt expires) as Bx.
     pose proof (be32_of_be32 _ Bx) as Hx.
     set (k4 := set_bytes _ 20 (be32 (expiry_field_of expires))) in E.
     assert (L4 : length k4 = 24%nat) by (subst k4; unfold be32; reflexivity).
@@ -177,8 +183,7 @@ Section keygen.
     pose proof A as A'. apply authorize_iff in A'. destruct A' as (_ & _ & D & _).
     pose proof (Hlen _ _ D) as L.
     destruct (list24 p L) as (b0&b1&b2&b3&b4&b5&b6&b7&b8&b9&b10&b11&b12&b13&b14&b15&b16&b17&b18&b19&b20&b21&b22&b23&->).
-    pose proof (u32z_lt (if (0 <? expires)%Z then (expires - timeOffset)%Z else expires)) as Bx.
-    fold (expiry_field_of expires) in Bx.
+    pose proof (expiry_field_lt expires) as Bx.
     pose proof (be32_of_be32 _ Bx) as Hx.
     set (k2 := set_bytes _ 20 (be32 (expiry_field_of expires))) in E.
     assert (L2 : length k2 = 24%nat) by (subst k2; unfold be32; reflexivity).
